@@ -24,7 +24,7 @@ PLAN = {
     "thorough": {"shards": 16, "shard_timeout": 3600, "case_timeout": 90, "steps": 2000000, "runs": 75000, "max_case_timeouts": 10},
 }
 THRESHOLDS = {
-    "quick": {"elitism_applications": 1400, "with_ties": 400, "minimising": 400, "iterator_inputs": 300, "multi_objective": 200, "generations_with_elitism_slot": 300, "runs": 50},
+    "quick": {"elitism_applications": 1400, "with_ties": 400, "minimising": 400, "iterator_inputs": 300, "multi_objective": 200, "generations_with_elitism_slot": 300, "runs": 50, "with_infinite_values": 200, "with_near_equal_values": 200},
     "thorough": {"elitism_applications": 38000, "generations_with_elitism_slot": 10000},
 }
 
@@ -33,7 +33,13 @@ def gen_cases(tier, seed):
     rng = pyrandom.Random(f"c16-{seed}")
     for i in range(PLAN[tier]["steps"]):
         n = rng.randint(2, 10)
-        vals = [rng.choice([0, 1, 1, 2, 3, 5, -1, 2.5]) for _ in range(n)]
+        pool = [0, 1, 1, 2, 3, 5, -1, 2.5]
+        style = rng.random()
+        if style < 0.15:  # infinities are ordinary floats with a total order (division by zero in a fitness function)
+            pool = pool + [float("inf"), float("-inf"), float("inf")]
+        elif style < 0.3:  # values that only differ far behind the decimal point
+            pool = [1e-6, 4e-6, 1.0, 1.000001, 0.99999951, 5e-324, 0.0, -0.0]
+        vals = [rng.choice(pool) for _ in range(n)]
         yield {"kind": "step", "n": n, "values": vals, "minimize": rng.random() < 0.5, "k": rng.randint(1, n), "form": rng.choice(["list", "iterator", "list"]), "multi": rng.random() < 0.25, "evaluated": rng.random() < 0.6, "seed": rng.randrange(10**6)}
     for i in range(PLAN[tier]["runs"]):
         yield {"kind": "run", "pop": rng.choice([3, 4, 5, 8, 10, 20]), "gens": rng.randint(5, 40 if tier == "thorough" else 15), "minimize": rng.random() < 0.5, "weights": [rng.choice([1, 2, 5, 10]), rng.choice([1, 5, 50, 90])], "repr": rng.choice(["tree", "ge"]), "inner": rng.choice(["mut", "cx+mut", "novelty"]), "seed": rng.randrange(10**6)}
@@ -62,7 +68,7 @@ def run_step(case, rec):
         mins = [case["minimize"], not case["minimize"]]
         prob = MultiObjectiveProblem(mins, fit)
         for ind, v in zip(inds, case["values"]):
-            fit.prescribe(ind.get_phenotype(), [float(v), float((v * 3) % 2)])
+            fit.prescribe(ind.get_phenotype(), [float(v), 0.0 if v in (float("inf"), float("-inf")) else float((v * 3) % 2)])
     else:
         prob = SingleObjectiveProblem(fit, minimize=case["minimize"])
         for ind, v in zip(inds, case["values"]):
@@ -82,6 +88,10 @@ def run_step(case, rec):
     rec.count("evaluations")
     if len(set(case["values"])) < len(case["values"]):
         rec.count("with_ties")
+    if any(v in (float("inf"), float("-inf")) for v in case["values"]):
+        rec.count("with_infinite_values")
+    if any(0 < abs(a - b) < 1e-4 for a in case["values"] for b in case["values"] if a not in (float("inf"), float("-inf")) and b not in (float("inf"), float("-inf"))):
+        rec.count("with_near_equal_values")
     if case["minimize"]:
         rec.count("minimising")
     if case["form"] == "iterator":
